@@ -42,6 +42,28 @@ def tree_contention_job(rng, jid):
             "sched": gen.schedule(rng, nt, 1500), "finals": list(range(1, npre + 13)), "rec": [], "budget": 400000}
 
 
+def stale_reader_job(rng, jid):
+    """a reader / writer that loaded an old table is overtaken by two or more complete resizes"""
+    u = gen.Uids()
+    pre = [gen.ins(k, u) for k in rng.sample([13, 14, 15, 29, 30, 7], 2)]
+    present = [p["k"] for p in pre]
+    kind = rng.choice(["map", "map", "set"])
+    k = rng.choice(present + [21, 45])
+    op = rng.choice(["get", "contains_key", "get_key_value", "remove", "compute", "insert"]) if kind == "map" else rng.choice(["get", "contains", "remove", "insert"])
+    o = {"op": op, "k": k}
+    if op == "insert":
+        o.update(tag=2, n=u.next())
+    if op == "compute":
+        o.update(f="inc", n=u.next())
+    writers = [[gen.ins(kk, u) for kk in range(100 + 20 * w, 100 + 20 * w + rng.randint(6, 16))] for w in range(rng.choice([1, 2]))]
+    threads = [[o]] + writers
+    j = rng.randint(1, 4)
+    script = [{"run": 0, "until": {"kind": "load", "nth": j}}] + [{"finish": t} for t in range(1, len(threads))] + [{"finish": 0}]
+    return {"id": jid, "cfg": "stale", "kind": kind, "pin": rng.random() < 0.3, "scope": "op", "hasher": gen.table_hasher({}), "cap": 2,
+            "batch": rng.choice([0, 1]), "prefix": pre, "threads": threads, "script": script, "sched": gen.schedule(rng, len(threads), 400),
+            "finals": [7, 13, 14, 15, 21, 29, 30, 45] + [kk for w in writers for kk in [x["k"] for x in w]], "rec": [], "budget": 300000}
+
+
 def init_race_job(rng, jid):
     u = gen.Uids()
     nt = rng.choice([2, 3, 4])
@@ -88,11 +110,13 @@ def run(pid, tier, seed, njobs=None):
     jobs = []
     names = list(gen.configs())
     for i in range(n):
-        m = i % 4
+        m = i % 5
         if m == 0:
             jobs.append(tree_contention_job(rng, "c11-%05d" % i))
         elif m == 1:
             jobs.append(init_race_job(rng, "c11-%05d" % i))
+        elif m == 4:
+            jobs.append(stale_reader_job(rng, "c11-%05d" % i))
         else:
             j = gen.conc_job(rng, "c11-%05d" % i, cfgname=names[i % len(names)], whole=0.25, maxops=4)
             if j["sched"].get("kind") == "os":
